@@ -92,9 +92,16 @@ func (p *vnProxy) schedAfter(name string) {
 	if t == nil {
 		return
 	}
+	prev := ""
+	if n := len(t.executed); n > 0 {
+		prev = t.executed[n-1]
+	}
 	t.executed = append(t.executed, name)
-	if name == "WriteSnapshot" {
-		// still inside Node.TopoWrite's lock: do not park here, park before the next call
+	if name == "WriteSnapshot" || (name == "WriteConsensusSnapshot" && prev == "WriteSnapshot") {
+		// still inside Node.TopoWrite's lock: do not park here, park before the next call. After the
+		// snapshot write of a consensus snapshot the next call (its consensus record) is made under
+		// the same lock: parking before it is safe because the specification lets no other handler
+		// write a snapshot while that lock is held.
 		t.parkBefore = true
 		return
 	}
@@ -163,7 +170,12 @@ func (r *vnRun) advance(s string) (call string, t *vnTask) {
 		}
 	}
 	t.grant <- struct{}{}
-	ev := <-t.events
+	var ev vnEvent
+	select {
+	case ev = <-t.events:
+	case <-time.After(60 * time.Second):
+		panic("verif harness: handler of " + s + " made no progress for 60 s (blocked on a lock another parked handler holds?)")
+	}
 	n := len(t.executed) - t.reported
 	if ev.kind == "finished" {
 		if n >= 1 {
@@ -181,6 +193,27 @@ func (r *vnRun) advance(s string) (call string, t *vnTask) {
 		return call, t
 	}
 	return "?" + ev.kind + ":" + ev.name, t
+}
+
+// a handler other than s is parked inside Node.TopoWrite and the topology lock really is taken
+func (r *vnRun) topoLockHeldByOther(s string) bool {
+	other := false
+	for n, t := range r.tasks {
+		if k := len(t.executed); n != s && !t.finished && k > 0 && t.executed[k-1] == "WriteSnapshot" {
+			other = true
+		}
+	}
+	if !other {
+		return false
+	}
+	for i := 0; i < 20; i++ {
+		if r.w.node.TopoCounter.TryLock() {
+			r.w.node.TopoCounter.Unlock()
+			return false
+		}
+		time.Sleep(2 * time.Millisecond)
+	}
+	return true
 }
 
 // stop the process: every parked handler is abandoned
@@ -205,7 +238,18 @@ func (r *vnRun) crash() {
 // let every parked handler run to completion (end of a behaviour without a stop)
 func (r *vnRun) drain() map[string]vM {
 	out := map[string]vM{}
+	// a handler parked inside the topology lock (right after its snapshot write) must finish first,
+	// the others may need that lock
+	order := []string{}
 	for s, t := range r.tasks {
+		if n := len(t.executed); n > 0 && t.executed[n-1] == "WriteSnapshot" {
+			order = append([]string{s}, order...)
+		} else {
+			order = append(order, s)
+		}
+	}
+	for _, s := range order {
+		t := r.tasks[s]
 		extra := []string{}
 		for !t.finished {
 			t.grant <- struct{}{}
@@ -537,6 +581,11 @@ func (r *vnRun) observe(setup string) vM {
 				outs = false
 			} else if sn, err := w.store.ReadSnapshot(h); err != nil || sn == nil {
 				outs = false
+			} else if sn.PayloadHash() != h || len(sn.Transactions) != 1 || sn.Transactions[0] != tx.PayloadHash() {
+				outs = false
+			} else if want := r.snaps[s]; want != nil && want.Hash != h {
+				// the finalization record must name the certified snapshot that was delivered
+				outs = false
 			}
 		}
 	}
@@ -547,8 +596,11 @@ func (r *vnRun) observe(setup string) vM {
 }
 
 type vnWalk struct {
-	Scn   string `json:"scn"`
-	Steps []struct {
+	Scn string `json:"scn"`
+	// the walk comes from the model variant without the lock around the consensus record: the real
+	// node may leave it (at the first step it cannot take the execution simply ends)
+	Variant bool `json:"variant"`
+	Steps   []struct {
 		A    string `json:"a"`
 		S    string `json:"s"`
 		Call string `json:"call"`
@@ -593,12 +645,22 @@ func vnReplayWalk(t *testing.T, tr *vTrace, wi int, wk vnWalk) {
 	newSched()
 	tr.Emit(vM{"ev": "Reset", "walk": wi, "scn": wk.Scn})
 	up := true
+steps:
 	for _, st := range wk.Steps {
 		switch st.A {
 		case "Step":
 			if !up || w.node == nil {
+				if wk.Variant {
+					break steps
+				}
 				tr.Emit(vM{"ev": "Call", "s": st.S, "call": "!down"})
 				continue
+			}
+			if st.Call == "WriteSnapshot" && run.topoLockHeldByOther(st.S) {
+				// the behaviour wants this handler to write its snapshot while another one is still
+				// inside Node.TopoWrite: the real node makes it wait. The execution ends here.
+				tr.Emit(vM{"ev": "Blocked", "s": st.S})
+				break steps
 			}
 			call, task := run.advance(st.S)
 			m := vM{"ev": "Call", "s": st.S, "call": call}
